@@ -436,6 +436,37 @@ def concat_parts(e: ast.AST) -> List[Any]:
                     add(("expr", norm(v)))
         elif isinstance(x, ast.Constant) and isinstance(x.value, str):
             add(x.value)
+        elif (isinstance(x, ast.Call) and isinstance(x.func, ast.Attribute) and x.func.attr == "format" and isinstance(x.func.value, ast.Constant) and isinstance(x.func.value.value, str)
+              and not x.keywords and not any(isinstance(a, ast.Starred) for a in x.args)):
+            # "{} = {}".format(a, b): auto-numbered or explicitly numbered plain fields only
+            import string
+            try:
+                fields = list(string.Formatter().parse(x.func.value.value))
+            except ValueError:
+                add(("expr", norm(x)))
+                return
+            auto = 0
+            for lit, field, spec, conv in fields:
+                add(lit or "")
+                if field is None:
+                    continue
+                if spec or conv or (field and not field.isdigit()):
+                    out.clear()
+                    add(("expr", norm(x)))
+                    return
+                idx = int(field) if field else auto
+                auto += 0 if field else 1
+                if idx >= len(x.args):
+                    out.clear()
+                    add(("expr", norm(x)))
+                    return
+                rec(x.args[idx])
+        elif isinstance(x, ast.BinOp) and isinstance(x.op, ast.Mod) and isinstance(x.left, ast.Constant) and isinstance(x.left.value, str) and x.left.value.count("%s") == x.left.value.count("%") and isinstance(x.right, ast.Tuple) and len(x.right.elts) == x.left.value.count("%s"):
+            pieces = x.left.value.split("%s")
+            for i_, pc in enumerate(pieces):
+                add(pc)
+                if i_ < len(x.right.elts):
+                    rec(x.right.elts[i_])
         elif isinstance(x, ast.BinOp) and isinstance(x.op, ast.Add):
             rec(x.left)
             rec(x.right)
